@@ -12,7 +12,7 @@
   input of the operations; the model is tied to the binary by predicting blame at every tip of the
   end-to-end scenarios (vlib/props/c02.py, correspondence:rewrite-e2e).
 -/
-import GitAiModel.Lemmas.RewriteOps2
+import GitAiModel.Lemmas.RewriteTyped
 import GitAiModel.Extracted.RewriteHooks
 namespace GitAi.Sys
 
@@ -33,6 +33,10 @@ def rspecStep (r : RSpec) (op : ROp) : RSpec :=
   | .stashPop ys =>
     let r' := rstep ⟨r.sp.st, r.stash⟩ (.stashPop ys)
     ⟨⟨r'.st, r.sp.g, r.sp.seen⟩, r'.stash, r.stashHeads.tail⟩
+  | .typed who ids =>
+    -- the ghost learns who typed the new ids (an id that already existed keeps its author)
+    ⟨⟨r.sp.st, fun y => if y ∈ r.sp.seen then r.sp.g y else if y ∈ ids then who else r.sp.g y, ids ++ r.sp.seen⟩,
+      r.stash, r.stashHeads⟩
   | _ =>
     let r' := rstep ⟨r.sp.st, r.stash⟩ op
     ⟨⟨r'.st, r.sp.g, r.sp.seen⟩, r'.stash, r.stashHeads⟩
@@ -63,12 +67,13 @@ def ValidROp (root : List Nat) (r : RSpec) : ROp → Prop
   | .base o => ValidOp2 r.sp o
   | .amend => AmendOK r.sp
   | .reset k _ => ResetOK r.sp k
-  | .replay drop mid (some (l, n)) news => ReplayOK root r.sp drop mid l n news
-  | .replay drop mid none news => ReplayOK root r.sp drop mid r.sp.st.log r.sp.st.notes news
+  | .replay drop mid (some (l, n)) news => ReplayOK root r.sp drop mid news.length l n news
+  | .replay drop mid none news => ReplayOK root r.sp drop mid drop r.sp.st.log r.sp.st.notes news
   | .squash l n ys => SquashOK r.sp l n ys
   | .switchCarry l n h => SwitchOK root r.sp l n h
   | .switchMerge l n h ys => SwitchMergeOK root r.sp l n h ys
   | .aborted => True
+  | .typed _ _ => True
   | .stashPush => True
   | .stashPop ys =>
     match r.stash, r.stashHeads with
@@ -117,12 +122,16 @@ theorem rspecStep_inv (root : List Nat) (r : RSpec) (op : ROp) (h : RInv2 root r
     | _ :: _, [], hs' => exact hs'.elim
   | replay drop mid src news =>
     cases src with
-    | none => exact ⟨h.replay drop mid _ _ news hv, hs⟩
-    | some ln => obtain ⟨l, n⟩ := ln; exact ⟨h.replay drop mid l n news hv, hs⟩
+    | none => exact ⟨h.replay drop mid drop _ _ news hv, hs⟩
+    | some ln => obtain ⟨l, n⟩ := ln; exact ⟨h.replay drop mid news.length l n news hv, hs⟩
   | squash l n ys => exact ⟨h.squash l n ys hv, hs⟩
   | switchCarry l n hd => exact ⟨h.switchCarry l n hd hv, hs⟩
   | switchMerge l n hd ys => exact ⟨h.switchMerge l n hd ys hv, hs⟩
   | aborted => exact ⟨h, hs⟩
+  | typed who ids =>
+    have hg : ∀ y ∈ r.sp.seen, (fun y => if y ∈ r.sp.seen then r.sp.g y else if y ∈ ids then who else r.sp.g y) y = r.sp.g y ∧
+        y ∈ ids ++ r.sp.seen := fun y hy => ⟨by simp [hy], List.mem_append_right _ hy⟩
+    exact ⟨RInv.congr hg h, StashInv.mono hg hs⟩
 
 theorem rspecRun_inv (root : List Nat) (r : RSpec) (ops : List ROp) (h : RInv2 root r)
     (hv : ValidROps root r ops) : RInv2 root (rspecRun r ops) := by
@@ -134,6 +143,7 @@ theorem rspecStep_g_seen (r : RSpec) (op : ROp) (y : Nat) (hy : y ∈ r.sp.seen)
     (rspecStep r op).sp.g y = r.sp.g y ∧ y ∈ (rspecStep r op).sp.seen := by
   cases op with
   | base o => exact specStep_g_seen r.sp o y hy
+  | typed who ids => exact ⟨by simp [rspecStep, hy], List.mem_append_right _ hy⟩
   | _ => exact ⟨rfl, hy⟩
 
 theorem rspecRun_g_seen (r : RSpec) (ops : List ROp) (y : Nat) (hy : y ∈ r.sp.seen) :
@@ -188,18 +198,83 @@ theorem rewrite_preserves_attribution (root : List Nat) (r : RSpec) (h : RInv2 r
     exact (rspecRun_g_seen r ops y (h.1.inv2.headSeen y hy)).1
   · rw [← h'.blame_head y hy]; exact hs
 
-/-- **what a replay credits.** The crediting function of a rebase or cherry-pick is blame over the
-    source history. It gives the ghost author for every line that occurs anywhere in a good source
-    history, and "nobody" for a line that occurs nowhere in it (a line typed while resolving a
-    conflict): so the `NewsOK` hypothesis of `ReplayOK` holds whenever every line a new commit adds
-    comes from the source history or was typed by a person. -/
+/-- **what a replay credits.** The content-replay path resolves every line a new commit adds through
+    `replayCredit`: the AI lines of the source HEAD state first, then the AI lines attested by the notes
+    of the `k` replayed commits (Model/RewriteCredit.lean). Over a good source history with well-formed
+    notes this lookup gives the ghost author of every line that is in the source HEAD state or that one
+    of the replayed commits adds — also when a later commit of the range changed the line again, and
+    whoever wrote the lines next to it — and "nobody" for a line nobody's (typed by a person while
+    resolving a conflict, an upstream line). So the `NewsOK` hypothesis of `ReplayOK` holds whenever
+    every line a new commit adds is one of these. -/
 theorem replay_credit_from_source (g : Nat → Author) (root : List Nat) (srcLog : List (List Nat × List Nat))
-    (srcNotes : List Note) (h : HistOK g root srcLog srcNotes) (hroot : ∀ y ∈ root, g y = none) (y : Nat)
-    (hy : (y ∈ root ∨ ∃ cp ∈ srcLog, y ∈ cp.1) ∨ ((∀ cp ∈ srcLog, y ∉ cp.1) ∧ g y = none)) :
-    blame srcLog srcNotes y = g y := by
-  rcases hy with hy | ⟨hy, hg⟩
-  · exact h.blame_any hroot y hy
-  · rw [blame_absent srcLog srcNotes y hy, hg]
+    (srcNotes : List Note) (h : HistOK g root srcLog srcNotes) (hwf : AllNotesWF srcLog srcNotes) (k y : Nat)
+    (hy : (∃ cp, srcLog.head? = some cp ∧ y ∈ cp.1) ∨ (∃ cp ∈ srcLog.take k, y ∈ cp.1 ∧ y ∉ cp.2) ∨ g y = none) :
+    replayCredit k srcLog srcNotes y = g y :=
+  replayCredit_eq_ghost h hwf k y hy
+
+/-- **a replay never invents**: whatever the lookup answers is the ghost author (no hypothesis on the
+    line: lines of mixed blocks, lines rewritten later, lines typed during a conflict resolution). -/
+theorem replay_never_invents (g : Nat → Author) (root : List Nat) (srcLog : List (List Nat × List Nat))
+    (srcNotes : List Note) (h : HistOK g root srcLog srcNotes) (hwf : AllNotesWF srcLog srcNotes) (k y s : Nat)
+    (hs : replayCredit k srcLog srcNotes y = some s) : g y = some s :=
+  replayCredit_sound h hwf k y s hs
+
+/-- **conflict continuation (partial).** A line typed while the operation is stopped at a conflict is
+    new to every table of the lookup: the replay credits it to nobody. With `rspecStep_inv` this gives
+    `rewrite_preserves_attribution` for `[.typed none ids, .replay …]` (a person resolves the conflict)
+    with no further hypothesis on the typed lines. FULL statement wanted: the same for `.typed (some s)`
+    (an agent resolves the conflict and reports a checkpoint) — false for the code as it is, see
+    `witness_agent_resolution_line_lost`; the missing hypothesis is `who = none`. -/
+theorem resolution_line_credit_partial (root : List Nat) (r : RSpec) (h : RInv2 root r) (k y : Nat)
+    (hy : y ∉ r.sp.seen) : replayCredit k r.sp.st.log r.sp.st.notes y = none :=
+  replayCredit_unseen h.1 k y hy
+
+/-- the excluded region, decided: session 2 resolves the conflict of a rebase and types line `11`
+    (checkpoint reported); after `--continue` the rebased commit contains `11`, its ghost author is
+    session 2, blame says nobody. (Replayed on the binary: template `conflict-continue`, finding
+    `rebase-conflict-continue:surviving-ai-line-lost:typed-by-agent-during-resolution`.) -/
+theorem witness_agent_resolution_line_lost :
+    let r := rspecRun ⟨cleanSpec [1, 2, 3] (fun _ => none), [], []⟩
+      [.base (.aiEdit 1 [1, 9, 3]), .base .stageAll, .base .commit, .typed (some 2) [11],
+       .replay 1 [(([1, 7, 3], [1, 2, 3]), [])] none [[1, 7, 9, 11, 3]]]
+    r.sp.st.head = [1, 7, 9, 11, 3] ∧ r.sp.g 11 = some 2 ∧ blame r.sp.st.log r.sp.st.notes 11 = none ∧
+    blame r.sp.st.log r.sp.st.notes 9 = some 1 := by decide
+
+/-- the same history with a person resolving the conflict satisfies the hypotheses (non-vacuity of the
+    conflict continuation inside `blame_matches_ghost` / `rewrite_preserves_attribution`) -/
+example : ValidROps [1, 2, 3] ⟨cleanSpec [1, 2, 3] (fun _ => none), [], []⟩
+    [.base (.aiEdit 1 [1, 9, 3]), .base .stageAll, .base .commit,
+     .typed none [7],      -- the upstream author's line (typed on the other branch)
+     .typed none [11],     -- the line typed while resolving the conflict
+     .replay 1 [(([1, 7, 3], [1, 2, 3]), [])] none [[1, 7, 9, 11, 3]]] := by
+  refine ⟨?_, trivial, ?_, trivial, trivial, ?_, trivial⟩
+  · exact ⟨by decide, by decide⟩
+  · exact ⟨⟨by decide, by decide⟩, by decide, by decide⟩
+  · exact ⟨by decide, by decide, by decide, by decide, by decide⟩
+
+/-- **blocks with several authors (regression).** One commit adds `9` (session 1), `7` (a person) and
+    `8` (session 2) next to each other; upstream inserts `5` at the top; rebase. Each line keeps its
+    author. Before the repair the whole block took the author of the first line the table knew
+    (`blockCredit`): the person's line and session 2's line were credited to session 1. -/
+theorem regression_block_of_several_authors :
+    let r := rrun ⟨{ head := [1, 2, 3], index := [1, 2, 3], work := [1, 2, 3] }, []⟩
+      [.base (.aiEdit 1 [1, 9, 2, 3]), .base (.humanEdit [1, 9, 7, 2, 3]), .base (.aiEdit 2 [1, 9, 7, 8, 2, 3]),
+       .base .stageAll, .base .commit]
+    let r' := rstep r (.replay 1 [(([5, 1, 2, 3], [1, 2, 3]), [])] none [[5, 1, 9, 7, 8, 2, 3]])
+    r'.st.head.map (blame r'.st.log r'.st.notes) = [none, none, some 1, none, some 2, none, none] ∧
+    blockCredit (headCredit r.st.log r.st.notes) [9, 7, 8] = some 1 := by decide
+
+/-- **a line rewritten by a later commit of the range (regression).** Commit 1: session 1 adds `9`;
+    commit 2: session 2 rewrites it (`10`); interactive rebase that drops commit 2. The rebased commit 1
+    has `9` again, which the source HEAD state does not contain: the note of the commit that wrote it
+    names session 1. Before the repair only the HEAD table was consulted (`headOnlyCredit`). -/
+theorem regression_line_rewritten_later :
+    let r := rrun ⟨{ head := [1, 2, 3], index := [1, 2, 3], work := [1, 2, 3] }, []⟩
+      [.base (.aiEdit 1 [1, 9, 2, 3]), .base .stageAll, .base .commit,
+       .base (.aiEdit 2 [1, 10, 2, 3]), .base .stageAll, .base .commit]
+    let r' := rstep r (.replay 2 [(([5, 1, 2, 3], [1, 2, 3]), [])] none [[5, 1, 9, 2, 3]])
+    blame r'.st.log r'.st.notes 9 = some 1 ∧ headOnlyCredit r.st.log r.st.notes 9 = none ∧
+    replayCredit 2 r.st.log r.st.notes 9 = some 1 := by decide
 
 /-! ## 2. Aborted, failing and dry-run operations -/
 
@@ -366,6 +441,11 @@ end GitAi.RJ
 #print axioms GitAi.Sys.blame_matches_ghost
 #print axioms GitAi.Sys.rewrite_preserves_attribution
 #print axioms GitAi.Sys.replay_credit_from_source
+#print axioms GitAi.Sys.replay_never_invents
+#print axioms GitAi.Sys.resolution_line_credit_partial
+#print axioms GitAi.Sys.witness_agent_resolution_line_lost
+#print axioms GitAi.Sys.regression_block_of_several_authors
+#print axioms GitAi.Sys.regression_line_rewritten_later
 #print axioms GitAi.Sys.aborted_is_identity
 #print axioms GitAi.Sys.stash_roundtrip_partial
 #print axioms GitAi.Sys.regression_stash_upstream_above
